@@ -27,6 +27,7 @@ impl BCase {
 }
 
 pub struct BOut {
+    pub dg: u64,
     pub viols: Vec<BViol>,
     pub flags: BFlags,
     pub trace: Option<Vec<String>>,
@@ -59,7 +60,8 @@ pub fn run_bcase(c: &BCase, st: &mut BStats, trace: bool) -> BOut {
             depth += 1;
         }
     }
-    BOut { viols: std::mem::take(&mut it.viols), flags: it.flags, trace: it.trace.take(), adapters, depth }
+    let dg = it.dg ^ (it.viols.len() as u64).wrapping_mul(0x9E3779B97F4A7C15);
+    BOut { dg, viols: std::mem::take(&mut it.viols), flags: it.flags, trace: it.trace.take(), adapters, depth }
 }
 
 fn nontrivial(prop: &str, o: &BOut) -> bool {
